@@ -34,6 +34,14 @@ class QuantTup(namedtuple("QuantTup", ["cls", "value_prop", "units_prop"])):
     """
 
 
+# Every character for which str.isspace() is true.
+python_whitespace = (
+    "\t\n\x0b\x0c\r\x1c\x1d\x1e\x1f \x85\xa0\u1680"
+    "\u2000\u2001\u2002\u2003\u2004\u2005\u2006\u2007\u2008\u2009\u200a"
+    "\u2028\u2029\u202f\u205f\u3000"
+)
+
+
 class PVLEncoder(object):
     """An encoder based on the rules in the CCSDS-641.0-B-2 'Blue Book'
     which defines the PVL language.
@@ -223,7 +231,15 @@ class PVLEncoder(object):
                 self.grammar.units_delimiters[1],
                 self.grammar.units_delimiters[1],
             )
-            value = re.sub(quoted, hide, posteq.strip())
+            # str.strip() and textwrap take more characters for white
+            # space than the grammar does.  Here those are ordinary
+            # characters of a value, and are hidden wherever they stand.
+            value = posteq.strip("".join(self.grammar.whitespace))
+            for i, c in enumerate(python_whitespace):
+                if c not in self.grammar.whitespace:
+                    hidden[c] = chr(0xE100 + i)
+                    value = value.replace(c, hidden[c])
+            value = re.sub(quoted, hide, value)
 
             lines = textwrap.wrap(
                 value,
